@@ -1,4 +1,4 @@
 SPECIFICATION Spec
-CONSTANTS Fmt = "csr" Group = "elem" M0 = 0 M1 = 2 K0 = 0 K1 = 0 N0 = 0 N1 = 2 MaxRow = 9 BH = 1 BW = 1 Palette = 1 ArrayLess = FALSE NAlpha = 2
-INVARIANTS RepsValid PatternKept ExactDomain CompleteIsFull Assoc LumpIsMatVec Emit
+CONSTANTS Fmt = "csr" Group = "elem" M0 = 0 M1 = 2 K0 = 0 K1 = 0 N0 = 0 N1 = 2 MaxRow = 9 BH = 1 BW = 1 Palette = 1 ArrayLess = FALSE NAlpha = 2 ABFull = FALSE
+INVARIANTS RepsValid PatternKept ExactDomain CompleteIsFull Assoc LumpIsMatVec DMulLaws Emit
 CHECK_DEADLOCK FALSE
